@@ -90,7 +90,7 @@ func explainIn(src string) (res string) {
 	if err != nil || len(stmts) != 1 {
 		return "ERR\t-"
 	}
-	lines := strings.Split(strings.TrimSuffix(parser.Explain(stmts[0]), "\n"), "\n")
+	lines := strings.Split(strings.TrimSuffix(rdr.Twice(func() string { return parser.Explain(stmts[0]) }), "\n"), "\n")
 	for i, l := range lines {
 		if strings.TrimLeft(l, " ") == "Identifier x" && i+1 < len(lines) {
 			op := strings.TrimLeft(lines[i+1], " ")
@@ -116,7 +116,7 @@ func explainOne(src string) (res string) {
 	if err != nil || len(stmts) != 1 {
 		return "ERR\t-"
 	}
-	text := parser.Explain(stmts[0])
+	text := rdr.Twice(func() string { return parser.Explain(stmts[0]) })
 	// a literal containing a newline would break the line structure: EXPLAIN escapes them, so the
 	// first column's line is a full line of the text
 	line, ok := firstColumnLine(text)
